@@ -35,6 +35,9 @@ func runC09(e *Env) error {
 		{"{% set x = 1 %}{% for i in [1,2,3] %}{% set x = x + i %}{% endfor %}{{ x }}", "7"},
 		{"{% for i in [] %}x{% else %}none{% endfor %}{% for i in nul %}x{% else %}nil{% endfor %}{% for i in 5 %}x{% else %}int{% endfor %}", "nonenilint"},
 		{"{% for i in range(3, 1, -1) %}{{ i }}{% endfor %}|{% for i in range(1, 7, 3) %}{{ i }}{% endfor %}", "321|147"},
+		// a variable that holds null is that variable, also when a macro has its name
+		{"{% macro x() %}M{% endmacro %}{% set x = null %}{% if x %}T{% else %}F{% endif %}[{{ x }}]{% if x is null %}N{% endif %}{% for x in [null, 1] %}{% if x %}t{% else %}f{% endif %}{% endfor %}", "F[]Nft"},
+		{"{% macro nul() %}M{% endmacro %}{% if nul %}T{% else %}F{% endif %}{% set y = nul %}{% if y is null %}N{% endif %}{% for v in [nul] %}{{ v is null ? 'n' : 'm' }}{% endfor %}", "FNn"},
 	}
 	for _, c := range corpus {
 		res := renderSrc(c.src, map[string]any{"zero": 0, "f64": float64(0), "u8": uint8(0), "nul": nil})
